@@ -179,7 +179,7 @@ class Session:
         # forced yield: jump the scripted clock at the boundary check of the chosen stage
         ya = inp.get("yield_at", "none")
         if ya != "none":
-            key = json.dumps({k: v for k, v in inp.items() if k not in ("yield_at",)}, sort_keys=True, default=str)
+            key = json.dumps({k: v for k, v in inp.items() if k not in ("yield_at", "yield_jump")}, sort_keys=True, default=str)
             calib = self._calib.get(key)
             if calib is None:
                 calib = self._calibrate(inp)
@@ -187,6 +187,13 @@ class Session:
             at = calib.get(ya)
             if at is None:
                 return {"skipped": f"stage {ya} has no boundary in this configuration", "log": [], "raised": None}
+            if inp.get("yield_jump") == "after_prev":
+                # the time passes right AFTER the previous stage boundary was checked (i.e. early in the stage, long
+                # before this stage's own bookkeeping): the slice is over its quantum when the boundary of `ya` is reached
+                order = [st for st in STAGE_ORDER if st in calib]
+                k = order.index(ya)
+                if k > 0:
+                    at = calib[order[k - 1]] + 1
             fake = _JumpTime(at)
         before_entries = len(self.refl_index.entries)
         snap_before = _listing(self.snapdir)
